@@ -148,7 +148,7 @@ func runC11(p *Program, e *Engine, r *Result, tier string) {
 				continue
 			}
 			p := stripIDs(root.path(ev))
-			fromRing := strings.HasPrefix(p, "recv."+ringF.Name()+"[") && strings.HasSuffix(p, "]."+ringPathField(ringF))
+			fromRing := strings.HasPrefix(p, "recv."+ringF.Name()+"[") && !strings.HasPrefix(p, "recv."+ringF.Name()+"[:") && strings.HasSuffix(p, "]."+ringPathField(ringF))
 			matched := false
 			cond := dnfTrue()
 			if phi != nil {
@@ -169,6 +169,14 @@ func runC11(p *Program, e *Engine, r *Result, tier string) {
 			})
 			a.R.ob("C11.1", "old-name:edge(slot)", "a non-empty old name is the path of a ring slot whose cookie equals this record's cookie", a.P.instrPos(s.st), fromRing && matched,
 				sprintf("value %s on an edge conditioned on %s", tail(p, 90), stripIDs(cond.String())))
+			// the search covers the whole ring: the loop bound is the ring length from the type
+			whole, _ := cond.everyConj(func(c Conj) bool {
+				return c.has(func(l Lit) bool {
+					return l.A.Kind == AkCmp && !l.Neg && l.A.Op == "<" && l.A.K == sprintf("c:%d", ringLen)
+				})
+			})
+			a.R.ob("C11.1", "old-name:whole-ring", "the cookie is looked up in every slot of the ring (a pending move is found wherever the index has moved to)", a.P.instrPos(s.st), whole && fromRing,
+				sprintf("loop bound in the edge condition: expected index < %d", ringLen))
 		}
 	}
 	// (2) ring writes
